@@ -289,3 +289,55 @@ def methods_store_nothing(ctx, model, prop, rule, qualnames, why):
         ctx.ob(not bad, Finding(f"{prop}.{rule}", fi.where, f"{fi.short}|stores:{sorted({b[1] for b in bad})}",
                                 f"{fi.short} stores {sorted({b[1] for b in bad})} on the isotherm (lines {sorted({b[0] for b in bad})}): {why}"),
                nontrivial_key=("store-nothing", q))
+
+
+_LIKE = ("zeros_like", "empty_like", "ones_like", "full_like")
+_DTYPE_KEEPING = ("asarray", "array", "asanyarray", "atleast_1d", "ravel", "copy", "squeeze")
+
+
+def no_dtype_inheriting_storage(ctx, model, prop, rule, prefixes, what):
+    """a result array created with numpy.*_like(<caller's array>) without dtype= inherits the caller's dtype: when results are then
+    stored into it element by element (or it is returned), integer input (python ints, integer arrays, lists of whole numbers)
+    truncates every result.  A *_like value that is only handed to another call (an optimiser's start vector) is not storage."""
+    from .core import Finding
+    n = 0
+    for m in model.modules.values():
+        if not m.name.startswith(tuple(prefixes)):
+            continue
+        for fi in list(m.functions.values()) + [f for c in m.classes.values() for f in c.methods.values()]:
+            derived = set(fi.params()) - {"self", "cls"}
+            changed = True
+            while changed:          # names bound to a dtype-preserving view of a parameter
+                changed = False
+                for st in _ast.walk(fi.node):
+                    if isinstance(st, _ast.Assign) and len(st.targets) == 1 and isinstance(st.targets[0], _ast.Name):
+                        v = st.value
+                        src = v.args[0] if isinstance(v, _ast.Call) and isinstance(v.func, _ast.Attribute) and v.func.attr in _DTYPE_KEEPING and v.args else v
+                        if isinstance(src, _ast.Name) and src.id in derived and st.targets[0].id not in derived:
+                            derived.add(st.targets[0].id)
+                            changed = True
+            like_vars = {}
+            for st in _ast.walk(fi.node):
+                if isinstance(st, _ast.Assign) and isinstance(st.value, _ast.Call) and isinstance(st.value.func, _ast.Attribute) \
+                        and st.value.func.attr in _LIKE and st.value.args and not any(k.arg == "dtype" for k in st.value.keywords):
+                    base = st.value.args[0]
+                    if isinstance(base, _ast.Name) and base.id in derived:
+                        for t in st.targets:
+                            if isinstance(t, _ast.Name):
+                                like_vars[t.id] = st
+                if isinstance(st, _ast.Return) and isinstance(st.value, _ast.Call) and isinstance(st.value.func, _ast.Attribute) \
+                        and st.value.func.attr in _LIKE:
+                    pass        # a constant array of the caller's dtype: nothing computed is stored in it
+            for name, st in like_vars.items():
+                n += 1
+                stored = any(isinstance(x, (_ast.Assign, _ast.AugAssign)) and any(
+                    isinstance(t, _ast.Subscript) and isinstance(t.value, _ast.Name) and t.value.id == name
+                    for t in (x.targets if isinstance(x, _ast.Assign) else [x.target])) for x in _ast.walk(fi.node))
+                stored = stored or any(isinstance(x, _ast.AugAssign) and isinstance(x.target, _ast.Name) and x.target.id == name for x in _ast.walk(fi.node))
+                ctx.ob(not stored, Finding(f"{prop}.{rule}", fi.where, f"{fi.short}|{name}={_ast.unparse(st.value)[:40]}",
+                                           f"line {st.lineno}: `{_ast.unparse(st)}` creates the result array with the dtype of the caller's input and "
+                                           f"{what} are stored into it: for integer input (3, [1, 2, 3], integer arrays) every stored value is truncated to "
+                                           "an integer, while the same numbers as floats give the right answer"),
+                       nontrivial_key=("like", fi.qualname, name))
+    ctx.analysed[f"{rule} *_like result arrays examined"] = n
+    return n
